@@ -376,6 +376,12 @@ class CallMixin(ExecBase):
     # ------------------------------------------------------------------ methods
     def call_method(s, p, recv, name, args, kwargs, node):
         m = s.unit.methods.get((recv.get("ty"), name)) or s.unit.methods.get(("*", name))
+        if m is None and recv.get("ty") is None:
+            # no static type: use the class the path condition implies (e.g. after an isinstance test)
+            for (ty_, nm), mm in s.unit.methods.items():
+                if nm == name and ty_ and ty_ != "*" and not p.feasible([Not(is_kind(recv.t, ty_))]):
+                    m = mm
+                    break
         if m is not None:
             return m(s, p, [recv] + list(args), kwargs, node)
         ty = recv.get("ty")
